@@ -29,8 +29,9 @@ EXPLANATION = (
     "node onto the Python operator of the algebra, operands in order, or raises; literals 0/1 and "
     "unary minus; R2.4 every sub-result of the resolver is used exactly once (the overloads mutate "
     "and return self); R2.5 container invariants (duplicate-free components and term lists, "
-    "model_description always returns a Model). Not decided: that the terms a branch constructs are "
-    "the right set."
+    "model_description always returns a Model); R2.6 expansion semantics: every overload is summarised by abstract "
+    "interpretation in a term-set domain (generators over the operands' terms and factors) and compared with the "
+    "documented Wilkinson-Rogers / lme4 expansion for every supported operand shape."
 )
 ASSUMPTIONS = [
     "Python: a class defining __eq__ without __hash__ is unhashable; binary operators try __op__ then the reflected method; no reflected methods exist in the package",
